@@ -1098,8 +1098,15 @@ class HTTPSConnectionPool(HTTPConnectionPool):
         if conn.is_closed:
             conn.connect()
 
+        # A verified proxy stands in for the destination only when the request
+        # is forwarded to it. Inside a CONNECT tunnel the destination has a TLS
+        # session of its own, which the proxy's verification says nothing about.
+        proxy_is_verified = conn.proxy_is_verified and not getattr(
+            conn, "proxy_is_tunneling", False
+        )
+
         # TODO revise this, see https://github.com/urllib3/urllib3/issues/2791
-        if not conn.is_verified and not conn.proxy_is_verified:
+        if not conn.is_verified and not proxy_is_verified:
             warnings.warn(
                 (
                     f"Unverified HTTPS request is being made to host '{conn.host}'. "
